@@ -211,6 +211,57 @@ pub fn run(a: &Args, rep: &mut Report) {
     }
     rep.set("helpers", "rand");
 
+    // ---- accumulation: every helper called 140,000 more times on this thread (more than 2 x 2^16:
+    // per-thread counters, reseeding periods, caches), each call judged ----
+    if !cfg!(miri) {
+        let reps: u64 = if sys::cpu_scale() > 1 { 3_000 } else { 140_000 };
+        let a_str = *b"abc\0";
+        let b_str = *b"abd\0";
+        let mut buf = [0x11u8, 0x22, 0x33, 0x44, 0x55, 0x66];
+        let mut first_bad: Option<(String, String)> = None;
+        for k in 0..reps {
+            let r = sys::catch(|| {
+                let v = helpers::rand(3, 10, 0, 0, 0);
+                if !(3..=10).contains(&v) {
+                    return Some(("rand", format!("rand(3, 10) = {v} at call #{k} on this thread")));
+                }
+                if helpers::gather_bytes(1, 2, 3, 4, 5) != 0x0102030405 {
+                    return Some(("gather_bytes", format!("gather_bytes(1,2,3,4,5) wrong at call #{k}")));
+                }
+                let x = k.wrapping_mul(7919) & 0x3ff_ffff;
+                if helpers::sqrti(x * x, 0, 0, 0, 0) != x {
+                    return Some(("sqrti", format!("sqrti({}) != {x} at call #{k}", x * x)));
+                }
+                if helpers::strcmp(a_str.as_ptr() as u64, b_str.as_ptr() as u64, 0, 0, 0) != 1 || helpers::strcmp(a_str.as_ptr() as u64, a_str.as_ptr() as u64, 0, 0, 0) != 0 {
+                    return Some(("strcmp", format!("strcmp wrong at call #{k}")));
+                }
+                helpers::memfrob(buf.as_mut_ptr() as u64 + 1, 4, 0, 0, 0);
+                let mid = buf;
+                helpers::memfrob(buf.as_mut_ptr() as u64 + 1, 4, 0, 0, 0);
+                if mid != [0x11, 0x22 ^ 0x2a, 0x33 ^ 0x2a, 0x44 ^ 0x2a, 0x55 ^ 0x2a, 0x66] || buf != [0x11, 0x22, 0x33, 0x44, 0x55, 0x66] {
+                    return Some(("memfrob", format!("memfrob wrong at call #{k}: {mid:x?} / {buf:x?}")));
+                }
+                None
+            });
+            rep.case(None);
+            match r {
+                Ok(None) => {}
+                Ok(Some((h, d))) => {
+                    first_bad = Some((format!("{h}:value:after-many-calls"), d));
+                    break;
+                }
+                Err(p) => {
+                    first_bad = Some((format!("panic:{}:after-many-calls", sys::panic_site(&p)), format!("a helper panicked at round #{k} of repeated calls on one thread: {p}")));
+                    break;
+                }
+            }
+        }
+        rep.add("repeated_helper_rounds_on_one_thread", reps);
+        if let Some((k, d)) = first_bad {
+            viol(rep, "helpers", &k, d, json!({"helper": "rand/gather_bytes/sqrti/strcmp/memfrob", "rounds": reps}));
+        }
+    }
+
     // ---- bpf_trace_printf: count the bytes that really reach stdout ----
     if !cfg!(miri) {
         use std::io::Write;
